@@ -12,7 +12,7 @@ import (
 )
 
 func TestVerifC09(t *testing.T) {
-	explore.Main("C09", []explore.Part{
+	parts := []explore.Part{
 		c09QFramesPart(),
 		c09ResolvePart(),
 		c09ValidatePart(),
@@ -23,5 +23,21 @@ func TestVerifC09(t *testing.T) {
 		c09QRandomPart(),
 		c09PackerPart(),
 		c09ScramblePart(),
-	}, func(msg string) { t.Fatal(msg) })
+	}
+	if explore.GetEnv().Thorough() {
+		// the largest part last, so that an expired deadline can only cut its tail
+		parts = []explore.Part{
+			c09QFramesPart(),
+			c09ResolvePart(),
+			c09ValidatePart(),
+			c09SplitPart(),
+			c09PackerPart(),
+			c09QMultiPart(),
+			c09ScramblePart(),
+			c09QFlightPart(),
+			c09QRFlightPart(),
+			c09QRandomPart(),
+		}
+	}
+	explore.Main("C09", parts, func(msg string) { t.Fatal(msg) })
 }
